@@ -62,6 +62,13 @@ def run(e: Engine, rep: Report):
              'to / replaced by the constructor only (STARTTLS, once '
              'withdrawn after the handshake, cannot come back)')
     r88(e, rep)
+    rep.rule('R8.9', 'an accepted HELO empties the extension set '
+             '(self.extensions.reset() on every path that sets ehlo_as): '
+             'extension commands are refused in a session without EHLO')
+    r89(e, rep)
+    rep.rule('R8.10', 'state of Extensions derived from the set is '
+             'refreshed by every method that changes the set')
+    r810(e, rep)
     rep.floor('R8.1', 1, 'socket swap sites')
 
 
@@ -694,3 +701,156 @@ def r88(e: Engine, rep: Report, rule: str = 'R8.8'):
     if n < 3:
         rep.error('anchor vanished: writers of Server.extensions (%d < 3)'
                   % n)
+
+
+# -------------------------------------------------------------------- R8.9
+def r89(e: Engine, rep: Report, rule: str = 'R8.9'):
+    """AUTH (and every other extension command) is refused before EHLO
+    because a HELO session has no extensions: _command_AUTH only asks
+    whether AUTH is in the set and whether *some* greeting was accepted -
+    HELO sets that too.  So an accepted HELO has to empty the set."""
+    ctx = e.method_ctx(SERVER, '_command_HELO')
+    g = e.build(ctx, raises=lambda b, n, r: set())
+    where = ctx.func.qname
+    rep.functions.add(where)
+    sets = [n for n in g.of_kind('stmt') if isinstance(n.ast, ast.Assign) and
+            any(ast.unparse(t) == 'self.ehlo_as' for t in n.ast.targets) and
+            not (isinstance(n.ast.value, ast.Constant) and
+                 not n.ast.value.value)]
+    if not sets:
+        rep.error('anchor vanished: self.ehlo_as = ... in _command_HELO')
+        return
+
+    def ev(n):
+        return ['reset'] if n.kind == 'call' and \
+            e.call_name(n) in ('reset', 'clear') and \
+            ast.unparse(n.ast.func.value).startswith('self.extensions') \
+            else []
+    before = dataflow.must_events_before(g, ev)
+    after = dataflow.must_events_after(g, ev, edge=c07.no_call_exc)
+    for n in sets:
+        rep.evaluations += 1
+        a = after.get(n.id)
+        ok = 'reset' in (before.get(n.id) or ()) or \
+            isinstance(a, dataflow.Top) or 'reset' in (a or ())
+        rep.check(ok, rule, where,
+                  'an accepted HELO leaves no extension on offer',
+                  'HELO is accepted (ehlo_as set) without emptying the '
+                  'extension set: AUTH, STARTTLS and the other extension '
+                  'commands only test the set and that a greeting was '
+                  'accepted, so they now work in a session that never sent '
+                  'EHLO', loc=n.loc(),
+                  reason='self.extensions.reset() on every accepting path')
+
+
+# ------------------------------------------------------------------- R8.10
+def r810(e: Engine, rep: Report, rule: str = 'R8.10'):
+    """What the server advertises is computed from the extension set at the
+    moment of the EHLO.  State of the Extensions object that is *derived*
+    from the set (a memo of the keyword lines) must be refreshed by every
+    method that changes the set, or a withdrawn extension (STARTTLS after
+    the handshake) is still advertised."""
+    cq = 'slimta.smtp.extensions.Extensions'
+    c = e.p.cls(cq)
+
+    def mutates(m):
+        for x in walk_own(m.node):
+            if isinstance(x, (ast.Assign, ast.AugAssign, ast.Delete)):
+                tg = x.targets if not isinstance(x, ast.AugAssign) \
+                    else [x.target]
+                for t in tg:
+                    for y in ast.walk(t):
+                        if isinstance(y, (ast.Subscript, ast.Attribute)) \
+                                and isinstance(y.ctx, (ast.Store, ast.Del)) \
+                                and ast.unparse(y).startswith(
+                                    'self.extensions'):
+                            return True
+            if isinstance(x, ast.Call) and \
+                    isinstance(x.func, ast.Attribute) and \
+                    ast.unparse(x.func.value) == 'self.extensions' and \
+                    x.func.attr in ('update', 'pop', 'clear', 'setdefault',
+                                    'popitem'):
+                return True
+        return False
+    # derived attributes
+    derived = {}
+    for mname, m in sorted(c.methods.items()):
+        if mname == '__init__':
+            continue
+        dep = set()
+        changed = True
+        while changed:
+            changed = False
+            for x in walk_own(m.node):
+                tg, src = [], None
+                if isinstance(x, ast.Assign):
+                    tg, src = x.targets, x.value
+                elif isinstance(x, ast.For):
+                    tg, src = [x.target], x.iter
+                if src is None:
+                    continue
+                uses = 'self.extensions' in ast.unparse(src) or any(
+                    isinstance(y, ast.Name) and y.id in dep
+                    for y in ast.walk(src))
+                if uses:
+                    for t in tg:
+                        for y in ast.walk(t):
+                            if isinstance(y, ast.Name) and y.id not in dep:
+                                dep.add(y.id)
+                                changed = True
+            # a list filled inside a loop over the set
+            for x in walk_own(m.node):
+                if isinstance(x, ast.For) and (
+                        'self.extensions' in ast.unparse(x.iter)):
+                    for y in ast.walk(x):
+                        if isinstance(y, ast.Call) and \
+                                isinstance(y.func, ast.Attribute) and \
+                                y.func.attr in ('append', 'add', 'extend') \
+                                and isinstance(y.func.value, ast.Name) and \
+                                y.func.value.id not in dep:
+                            dep.add(y.func.value.id)
+                            changed = True
+        for x in walk_own(m.node):
+            if isinstance(x, ast.Assign):
+                for t in x.targets:
+                    if isinstance(t, ast.Attribute) and \
+                            isinstance(t.value, ast.Name) and \
+                            t.value.id == 'self' and \
+                            t.attr != 'extensions' and (
+                                'self.extensions' in ast.unparse(x.value) or
+                                any(isinstance(y, ast.Name) and y.id in dep
+                                    for y in ast.walk(x.value))):
+                        derived.setdefault(t.attr, (m, x))
+    muts = [m for mn, m in sorted(c.methods.items())
+            if mn != '__init__' and mutates(m)]
+    if len(muts) < 3:
+        rep.error('anchor vanished: methods of Extensions that change the '
+                  'set (%d < 3)' % len(muts))
+    rep.evaluations += 1
+    if not derived:
+        rep.ok(rule, cq, 'no state derived from the extension set is kept',
+               reason='build_string computes the keyword lines from the set '
+               'on every call')
+        return
+    for attr, (dm, dx) in sorted(derived.items()):
+        for m in muts:
+            rep.evaluations += 1
+            ctx = Ctx(m, cq)
+            g = e.build(ctx, raises=lambda b, n, r: set())
+            after = dataflow.must_events_after(
+                g, lambda n: ['refresh'] if n.kind == 'stmt' and
+                isinstance(n.ast, ast.Assign) and any(
+                    ast.unparse(t) == 'self.' + attr
+                    for t in n.ast.targets) else [], edge=c07.no_call_exc)
+            st = after.get(g.entry.id)
+            ok = isinstance(st, dataflow.Top) or 'refresh' in (st or ())
+            rep.check(ok, rule, m.qname,
+                      'self.%s (derived from the extension set in %s) is '
+                      'refreshed' % (attr, dm.name),
+                      '%s changes the extension set but leaves self.%s, '
+                      'which %s computed from the set, as it was: the next '
+                      'EHLO reply is built from the stale copy - an '
+                      'extension that was dropped (STARTTLS after the '
+                      'handshake) is still advertised' % (
+                          m.name, attr, dm.name), loc=m.loc(),
+                      reason='assigned on every path')
